@@ -70,9 +70,9 @@ func (in *Inst) Project(tr *tracker, maxSession int) (obj, []string) {
 		}
 		if m, ok := kf.Members[k.did]; ok {
 			mem = append(mem, obj{"st": memStates[m.MemberState], "imp": units(m.ImpeachmentVotes, BigVote, "impeachment votes", &bad),
-				"key": len(m.DPOSPublicKey) > 0})
+				"key": len(m.DPOSPublicKey) > 0, "pbc": int(m.PenaltyBlockCount)})
 		} else {
-			mem = append(mem, obj{"st": "None", "imp": 0, "key": false})
+			mem = append(mem, obj{"st": "None", "imp": 0, "key": false, "pbc": 0})
 		}
 		if m, ok := kf.NextMembers[k.did]; ok {
 			next = append(next, obj{"in": true, "key": len(m.DPOSPublicKey) > 0})
